@@ -1,6 +1,7 @@
 package checks
 
 import (
+	"path/filepath"
 	"fmt"
 	"os"
 	"strconv"
@@ -76,7 +77,7 @@ func c14Reply(q *faketc.Req) *wire.Msg {
 
 func runC14(r *vc.Run, replay string) {
 	r.Rule = "cases = one per (scenario, caller): N in {2,8,64,512} concurrent SendSyncRequest callers under reply scripts {reverse, random permutation, sequential duplicates, back-to-back duplicates, drops (20 s timeout), unsolicited responses for unknown ids, phase-two requests with ids colliding with in-flight client ids, replies held across several heart-beats, reply after the caller's timeout (thorough), connection reset with requests pending}; each reply carries '<name>#<frame id>' so the response a caller got identifies the request it answers; after each scenario: pending futures, goroutines parked in response delivery, and a fresh request; distinct_nontrivial = distinct (script, N class, caller outcome) among callers whose request reached the TC"
-	r.Assumptions = []string{"the client child is built with -race; data-race reports are owned by C20 and only counted here",
+	r.Assumptions = []string{"the client child is built with -race; a race report whose accessing stacks all lie in the message-future code (GettyRemoting / GettyRemotingClient / message future) is a violation here, every other report is owned by C20 and only counted",
 		"quiescence is logical: all callers returned and a final round trip on the same session completed"}
 	if os.Getenv("VERIF_C14_ONLY") == "storm" {
 		c14Storm(r)
@@ -88,7 +89,7 @@ func runC14(r *vc.Run, replay string) {
 		return
 	}
 	defer w.Close()
-	ch, err := w.StartClient("c14", true, world.InitArg{}, []string{"GORACE=halt_on_error=0"})
+	ch, err := w.StartClient("c14", true, world.InitArg{}, []string{"GORACE=halt_on_error=0 log_path=" + filepath.Join(r.RunDir, "race-c14")})
 	if err != nil {
 		r.Errorf("%v", err)
 		return
@@ -191,8 +192,26 @@ func runC14(r *vc.Run, replay string) {
 			r.Errorf("client child crashed outside seata-go: %s", clipStr(txt, 1500))
 		}
 	}
-	races := strings.Count(ch.Log(), "WARNING: DATA RACE")
-	r.Count("race_reports_in_child_log(owned by C20)", int64(races))
+	// race reports: those in which every accessing stack enters through the response-delivery code belong to this
+	// property (two replies for one id writing the future a caller reads is "a duplicate that was not discarded");
+	// all others are owned by C20 and only counted
+	other := 0
+	for _, rc := range c20ParseRaces(r.RunDir, "race-c14") {
+		mine := rc.AccessInSeata
+		for _, site := range strings.Split(rc.Sig, " <-> ") {
+			if !strings.HasPrefix(site, "pkg/remoting/getty.(*GettyRemoting).") && !strings.HasPrefix(site, "pkg/remoting/getty.(*GettyRemotingClient).") && !strings.HasPrefix(site, "pkg/protocol/message.") {
+				mine = false
+			}
+		}
+		if !mine {
+			other += rc.Count
+			continue
+		}
+		r.Violate(&vc.Violation{Clause: "race-on-future", Shape: "race|" + rc.Sig, Features: map[string]string{"sites": rc.Sig},
+			Detail:  fmt.Sprintf("the race detector reported %d unsynchronised accesses to a message future (%s): a reply was stored into a future that another reply or its caller was using", rc.Count, rc.Sig),
+			History: map[string]interface{}{"report": rc.Text}})
+	}
+	r.Count("race_reports_elsewhere(owned by C20)", int64(other))
 }
 
 func c14Names(sc *c14Scenario) []string {
